@@ -247,6 +247,24 @@ def p_control(rng):
     return "control", src, ["(srfi 1)"]
 
 
+def p_deep(rng):
+    """deep non-tail recursion through every kind of call (fixed, rest arguments, apply, map with a closure), on the main stack and
+    on the small initial stack of a fresh green thread: the VM stack is re-allocated several times while frames hold the only
+    references to fresh objects"""
+    d = rng.choice([300, 700, 1500, 3000, 6000])
+    shape = rng.choice([
+        "(define (deep n . rest) (if (= n 0) (length rest) (+ (length rest) (deep (- n 1) (list n) (vector n) (* 1.5 n)))))",
+        "(define (deep n . rest) (if (= n 0) 0 (+ 1 (apply deep (- n 1) (list (number->string n) (list n))))))",
+        "(define (deep n) (if (= n 0) 0 (+ 1 (car (map (lambda (x) (deep (- n 1))) (list (vector n)))))))",
+        "(define (deep n) (if (= n 0) '() (cons (make-string 2 #\\a) (deep (- n 1)))))",
+        "(define (deep n . opt) (let ((v (vector n opt))) (if (= n 0) 0 (+ (vector-length v) -2 1 (deep (- n 1) v)))))",
+    ])
+    call = "(deep %d)" % d
+    fin = "(let ((r %s)) (write (if (pair? r) (length r) r)))" % (call if rng.chance(1, 2) else "(thread-join! (thread-start! (make-thread (lambda () %s))))" % call)
+    src = shape + "\n" + fin + " (newline)\n(write (let ((r (deep 10))) (if (pair? r) (length r) r))) (newline)\n"
+    return "deep", src, ["(srfi 18)"]
+
+
 def p_threads(rng):
     t = rng.range(2, 5)
     n = rng.range(20, 300)
@@ -327,7 +345,7 @@ def p_compile(rng):
 
 FAMILIES = [
     (p_reader_writer, 3), (p_strings, 3), (p_bignum, 3), (p_hash, 3), (p_sort, 2), (p_bits, 2), (p_json, 2),
-    (p_ports, 2), (p_control, 3), (p_threads, 2), (p_vectors, 2), (p_numbers, 2), (p_compile, 2),
+    (p_ports, 2), (p_control, 3), (p_deep, 4), (p_threads, 2), (p_vectors, 2), (p_numbers, 2), (p_compile, 2),
 ]
 
 ALL_IMPORTS = ["(scheme char)", "(srfi 1)", "(srfi 18)", "(srfi 69)", "(srfi 95)", "(srfi 151)", "(chibi json)"]
